@@ -24,6 +24,10 @@ VARIANTS = {
     "srcto":  dict(macro="ascent", attrs=["generate_run_timeout"], timeout=True, pack="source", cut=1),
     "redecl": dict(macro="ascent", attrs=[], pack="redecl"),
     "init":   dict(macro="ascent", attrs=[], pack="init"),
+    # initialised declaration, plain re-declaration, the initialised declaration again: the last one wins
+    "init3":  dict(macro="ascent", attrs=[], pack="init", thrice=True),
+    # ascent_run! in which ONLY relations that no rule body reads carry an initialiser (inputs arrive through generator rules)
+    "runhead": dict(macro="ascent_run", attrs=[], headonly=True),
     "perm1":  dict(macro="ascent", attrs=[], xform="perm", seed=1),
     "perm2":  dict(macro="ascent", attrs=[], xform="perm", seed=2),
     "permpar": dict(macro="ascent_par", attrs=[], xform="perm", seed=3),
@@ -53,7 +57,7 @@ def variants_for(prog):
             vs += ["topar"]
     vs += sorted(tags & set(VARIANTS) - set(vs))     # explicit variant names as tags
     if "pack" in tags:
-        vs += ["run", "mrt", "gen", "src0", "src1", "src2", "srcto", "srcred", "redecl", "init"]
+        vs += ["run", "mrt", "gen", "src0", "src1", "src2", "srcto", "srcred", "redecl", "init", "init3", "runhead"]
         if "par" in tags:
             vs += ["runpar", "srcpar"]
     if "perm" in tags:
@@ -94,6 +98,24 @@ def transform(prog, var):
         import xforms
         p = xforms.expand(p)
     return p, cmap
+
+
+def body_relations(prog):
+    """names of the relations some rule body (clause, negation, aggregation, macro body) reads"""
+    seen = set()
+
+    def walk(items):
+        for it in items:
+            if it["t"] in ("cl", "neg", "agg"):
+                seen.add(it["rel"])
+            elif it["t"] == "disj":
+                for alt in it["alts"]:
+                    walk(alt)
+    for r in prog["rules"]:
+        walk(r["body"])
+    for m in prog.get("macros", []):
+        walk(m["body"])
+    return seen
 
 
 def bogus_val(ty, cmap):
@@ -153,6 +175,9 @@ def assemble(modname, prog, var, cmap, decls, macros, rules, push_conv):
                 else:
                     decl2.append(d)
             body_items = decl2 + macros + rules
+            if v.get("thrice"):
+                mid = [d for r, d in zip(rels, decls) if r["input"] and r["ds"] == "-"]
+                body_items = decl2 + mid + [d2 for (r, d2) in zip(rels, decl2) if r["input"] and r["ds"] == "-"] + macros + rules
         if pack == "source":
             # split the program text into three parts: before / included / after
             n = len(rules)
@@ -224,7 +249,18 @@ pub fn make() -> Box<dyn Driven> {{ Box::new(D(Prog::default())) }}
         fields = "\n".join(f"   {r['name']}: Vec<{rowty(r)}>," for r in plain)
         pushes = "\n".join(f'         "{r["name"]}" => {{ self.{r["name"]}.push({conv(r)}); }},' for r in plain)
         inits, decl2 = [], []
+        feeders = []
+        read = body_relations(prog) if v.get("headonly") else set()
         for r, d in zip(rels, decls):
+            if v.get("headonly") and r["ds"] == "-" and (r["input"] or r["name"] in read):
+                # no initialiser: input rows arrive through a generator rule, rows pushed into other relations are ignored
+                decl2.append(d)
+                if r["input"]:
+                    inits.append(f"      let {r['name']}_init = self.{r['name']}.clone();")
+                    vs = [f"a{i}" for i in range(len(r["cols"]))]
+                    pat = "(" + "".join(x + ", " for x in vs) + ")" if vs else "_unit"
+                    feeders.append(f"{r['name']}({', '.join(x + '.clone()' for x in vs)}) <-- for {pat} in {r['name']}_init.iter();")
+                continue
             if r["ds"] == "-" and (r["kind"] == "rel" or r["input"]):
                 inits.append(f"      let {r['name']}_init = self.{r['name']}.clone();")
                 if r["kind"] == "lat" and par:
@@ -256,7 +292,7 @@ impl Driven for D {{
    fn run(&mut self) {{
 {chr(10).join(inits)}
       let res = ascent::{macro}! {{
-{attrs}         {(chr(10) + '         ').join(decl2 + macros + rules)}
+{attrs}         {(chr(10) + '         ').join(decl2 + macros + feeders + rules)}
       }};
       let mut m: Vec<(String, Value)> = vec![];
 {chr(10).join(dumps)}
